@@ -28,11 +28,16 @@ SubjAlphaCI(src) ==
                       ELSE LET c == CHOOSE y \in S : \A z \in S : y <= z IN {c} \cup Pick(S \ {c}, n - 1)
     IN  {97, 65, 98} \cup Pick(L, 2)
 
+\* the delimiter of a regular-expression literal the value is rendered into a SECOND time: a punctuation character of
+\* the source itself where there is one (so that it has to be escaped), else the slash
+RegexSpecial == {46, 42, 43, 63, 94, 36, 91, 93, 40, 41, 123, 125, 92, 124}
+RDelim(src) == LET L == {c \in Literals(ParseStr(src)) : ~IsAlnum(c) /\ c \notin RegexSpecial /\ c > 32 /\ c < 127}
+               IN  IF L = {} THEN 47 ELSE CHOOSE c \in L : \A d \in L : c <= d
 StrCases(g) ==
     LET G == Groups[g]
         Srcs == SeqsUpTo(G.alpha, MaxLen) \cup
                 UNION {RandomSubset(NRandom \div 3, [1..n -> G.alpha]) : n \in {MaxLen + 1, MaxLen + 2, MaxLen + 4}}
-    IN  {[kind |-> "str", g |-> g, ks |-> G.ks, src |-> s, subj |-> SetToSeq(SubjAlpha(s)), subjci |-> SetToSeq(SubjAlphaCI(s))] : s \in Srcs}
+    IN  {[kind |-> "str", g |-> g, ks |-> G.ks, src |-> s, subj |-> SetToSeq(SubjAlpha(s)), subjci |-> SetToSeq(SubjAlphaCI(s)), rdelim |-> RDelim(s)] : s \in Srcs}
 
 FieldCases ==
     {[kind |-> "field", name |-> n] :
@@ -42,7 +47,7 @@ FieldCases ==
 \* text), judged under the configurations of group 1 like the generated ones
 Harvested == IF Shard = 5 THEN ndJsonDeserialize(IOEnv.VERIF_IN) ELSE <<>>
 HarvestCases == {[kind |-> "str", g |-> 1, ks |-> Groups[1].ks, src |-> Harvested[i].src,
-                  subj |-> SetToSeq(SubjAlpha(Harvested[i].src)), subjci |-> SetToSeq(SubjAlphaCI(Harvested[i].src))] : i \in 1..Len(Harvested)}
+                  subj |-> SetToSeq(SubjAlpha(Harvested[i].src)), subjci |-> SetToSeq(SubjAlphaCI(Harvested[i].src)), rdelim |-> RDelim(Harvested[i].src)] : i \in 1..Len(Harvested)}
 Cases == IF Shard = 4 THEN FieldCases ELSE IF Shard = 5 THEN HarvestCases ELSE StrCases(Shard)
 
 SetJ(S) == SetToSeq(S)
